@@ -25,7 +25,7 @@ try:
     for o in json.load(open(aout)).get("obligations", []):
         if o["status"] == "discharged":
             for p in o.get("props", []):
-                if p in lock:
+                if p in lock and "asmvc" in propcfg.PROPS[p]["engines"]:
                     lock[p].append(o["id"])
 except Exception as e:
     print("asmvc lock skipped:", e)
